@@ -1278,6 +1278,16 @@ def _check_carry(rep, f, opname, rule, slot, info):
         raise Shape('nothing is carried to the next update')
     problems = []
     nstates = 0
+    # every way out of update() goes through the split: a return taken after the carried segments were taken out of self.<carry>
+    # (e.g. an early return for an empty batch) would drop them
+    from sa import flow as _flow
+    cfg = _flow.CFG(f.node)
+    dom = cfg.dominators()
+    takes_out = [st for st in f.node.body if isinstance(st, ast.Assign) and ast.unparse(st.targets[0]) == carried_name and isinstance(st.value, ast.List) and not st.value.elts]
+    for r in [x for x in ast.walk(f.node) if isinstance(x, ast.Return)]:
+        if takes_out and r.lineno > takes_out[0].lineno and not _flow.dominated_by(cfg, dom, r, lambda s_, dn: s_ is lp):
+            problems.append(('early-return', 'update() can return (line %d) after the carried segments were taken out of %s and before they are put back: an update that brings '
+                             'no new sample (a variable sampled at another rate, a heartbeat) forgets everything carried over' % (r.lineno, carried_name)))
     for pos, (R,) in (('R < b0', (0,)), ('R = b0', (1,)), ('b0 < R < b1', (2,)), ('R = b1', (3,)), ('b1 < R', (4,))):
         b0, b1 = Fraction(1), Fraction(3)
         for veq in (False, True):
